@@ -26,7 +26,7 @@ ASSUMPTIONS = ["values are compared as text (str of the stored value)",
                "a query over Sections only binds the parent of each Section (Document or Section) to ?d; rows are "
                "projected on the kinds the query mentions",
                "Document+Property without Section is not generated (no direct containment)"]
-REQUIRED_MONITORS = ["match-blocks", "fuzzy-blocks", "query-builds"]
+REQUIRED_MONITORS = ["match-blocks", "fuzzy-blocks", "query-builds", "finder-instance-reuse"]
 
 NS = "https://g-node.org/odml-rdf#"
 ATTRS = {"Doc": {"author": "hasAuthor", "date": "hasDate", "version": "hasDocVersion", "id": "hasId"},
@@ -269,7 +269,7 @@ def mechanism(docs, pair):
     return "plain"
 
 
-def run_query(ctx, docs, graph, qpairs, mode, form, case):
+def run_query(ctx, docs, graph, qpairs, mode, form, case, shared=None):
     from odml.rdf.fuzzy_finder import FuzzyFinder
     rec = ctx.rec
     rec.evaluation()
@@ -301,6 +301,21 @@ def run_query(ctx, docs, graph, qpairs, mode, form, case):
         rec.violation("%s/%s/raised-%s" % (mode, form, type(exc).__name__), "%r for %r" % (exc, q_str), case)
         return
     blocks = parse_output(out)
+    if shared is not None:
+        # the same search on a finder that has been used before (for the earlier queries of this set, one of which is
+        # made to fail): a search does not depend on earlier ones
+        rec.monitor("finder-instance-reuse")
+        try:
+            with warnings.catch_warnings():
+                warnings.simplefilter("ignore")
+                out2 = shared.find(mode=mode, graph=graph, q_params=params) if form == "dict" else \
+                    shared.find(mode=mode, graph=graph, q_str=q_str)
+            canon = lambda bl: sorted((tuple(sorted(p)), tuple(sorted(map(tuple, r)))) for p, v, r in bl)
+            if canon(parse_output(out2)) != canon(blocks):
+                rec.violation("%s/%s/finder-reuse/result-depends-on-earlier-searches" % (mode, form),
+                              "query %r: %d blocks on the used finder, %d on a fresh one" % (q_str, len(parse_output(out2)), len(blocks)), case)
+        except Exception as exc:
+            rec.violation("%s/%s/finder-reuse/raised-%s" % (mode, form, type(exc).__name__), "%r for %r" % (exc, q_str), case)
     rec.monitor("match-blocks" if mode == "match" else "fuzzy-blocks")
     got = {}
     order = []
@@ -357,13 +372,25 @@ def run_case(case, ctx):
         models = [model.model_of(d) for d in docs]
         graph = RDFWriter(docs, rdf_subclassing=False).convert_to_rdf()
     from checks.c01_xml import no_ids
-    for q in case["queries"]:
+    from odml.rdf.fuzzy_finder import FuzzyFinder
+    shared = FuzzyFinder()
+    for qi, q in enumerate(case["queries"]):
+        if qi % 3 == 1:
+            # a search that is refused (value with the quote character, malformed pair) on the shared finder
+            for bad in ({"q_params": {"Sec": [("name", 'a"b')]}}, {"q_str": "sec(name:alpha:beta)"}):
+                try:
+                    with warnings.catch_warnings():
+                        warnings.simplefilter("ignore")
+                        shared.find(mode="match", graph=graph, **bad)
+                    rec.count("refused-searches", "accepted")
+                except Exception as exc:
+                    rec.count("refused-searches", type(exc).__name__)
         mode, form = q["mode"], q["form"]
         if mode == "match":
             qp = [tuple(p[:2]) + (tuple(p[2]) if isinstance(p[2], list) else p[2],) for p in q["pairs"]]
         else:
             qp = (q["attrs"], q["terms"])
-        hit = run_query(ctx, models, graph, qp, mode, form, dict(case, queries=[q]))
+        hit = run_query(ctx, models, graph, qp, mode, form, dict(case, queries=case["queries"][:qi + 1]), shared)
         rec.case(core.h([[enc(no_ids(s)) for s in specs], q]), bool(hit))
         rec.count("queries", "%s/%s/%s" % (mode, form, "+".join(sorted({p[0] for p in q["pairs"]})) if mode == "match"
                                           else "+".join(sorted(q["attrs"]))))
@@ -446,7 +473,7 @@ def gen_queries(rng, docs, n):
 
 def run(ctx):
     rec = ctx.rec
-    for i in range(ctx.pick(40, 3000)):
+    for i in range(ctx.pick(32, 3000)):
         if not ctx.mine(i):
             continue
         rng = ctx.rng("set", i)
